@@ -176,6 +176,7 @@ static int do_run(int argc, char** argv) {
   while (std::getline(script, line)) {
     if (line.empty())
       continue;
+    printf("@ %d\n", index);
     mark(index++);
     std::istringstream is(line);
     std::string cmd;
@@ -188,9 +189,15 @@ static int do_run(int argc, char** argv) {
       continue;
     }
     if (cmd == "Z") {
+      // the dump opens the dbs itself: keep these calls out of the hook log
+      const char* log = getenv("VERIF_DBLOG");
+      std::string saved(log ? log : "");
+      unsetenv("VERIF_DBLOG");
       std::string name;
       while (is >> name)
         dump_db(name);
+      if (!saved.empty())
+        setenv("VERIF_DBLOG", saved.c_str(), 1);
       continue;
     }
     int sid = 0;
